@@ -44,16 +44,21 @@ type rec map[string]interface{}
 var rng *rand.Rand
 var enc *json.Encoder
 
+var flush = func() {}
+
 func emit(r rec) {
 	if err := enc.Encode(r); err != nil {
 		log.Fatal(err)
 	}
+	flush()
 }
 
 const genesisTime = uint64(1000000)
 const volume = uint64(100e12)
 
 type chain struct {
+	osec   cipher.SecKey
+	oaddr  cipher.Address
 	pub    cipher.PubKey
 	sec    cipher.SecKey
 	other  cipher.SecKey
@@ -89,7 +94,7 @@ func makeChain(dir string, n int) *chain {
 	if err := v.Init(); err != nil {
 		log.Fatal(err)
 	}
-	c := &chain{pub: pub, sec: sec, other: other}
+	c := &chain{pub: pub, sec: sec, other: other, osec: osec, oaddr: addr}
 	gb, err := v.GetSignedBlockBySeq(0)
 	if err != nil || gb == nil {
 		log.Fatal("no genesis")
@@ -243,7 +248,16 @@ func frame(id string, body []byte) []byte {
 	return append(b, body...)
 }
 
+var lastSent string
+
 func (p *peer) send(id string, body []byte) error {
+	if id != "PING" {
+		lastSent = fmt.Sprintf("%s %x", id, body)
+		if len(lastSent) > 400 {
+			lastSent = lastSent[:400]
+		}
+		fmt.Fprintln(os.Stderr, "SENDING", lastSent)
+	}
 	_, err := p.c.Write(frame(id, body))
 	return err
 }
@@ -354,6 +368,17 @@ func (c *chain) concrete(it item, followerChain []string) coin.SignedBlock {
 	case "alien":
 		rng.Read(b.Head.PrevHash[:])
 		b.Sig = cipher.MustSignHash(b.HashHeader(), c.sec)
+	case "rebodied":
+		// the publisher's genuine header and signature over another, individually valid, body: the same input spent
+		// to differently divided outputs (signed by the owner of the input)
+		old := b.Body.Transactions[0]
+		var txn coin.Transaction
+		_ = txn.PushInput(old.In[0])
+		txn.Out = append(txn.Out, coin.TransactionOutput{Address: c.oaddr, Coins: old.Out[0].Coins - 1e6, Hours: old.Out[0].Hours / 2},
+			coin.TransactionOutput{Address: c.oaddr, Coins: old.Out[1].Coins + 1e6, Hours: old.Out[1].Hours})
+		txn.SignInputs([]cipher.SecKey{c.osec})
+		_ = txn.UpdateHeader()
+		b.Body = coin.BlockBody{Transactions: coin.Transactions{txn}}
 	}
 	return b
 }
@@ -433,11 +458,13 @@ func randomScript(n int) [][]item {
 		default:
 			for q := 0; q < 1+rng.Intn(4); q++ {
 				kind := "pub"
-				switch rng.Intn(8) {
+				switch rng.Intn(9) {
 				case 0:
 					kind = "forged"
 				case 1:
 					kind = "alien"
+				case 2:
+					kind = "rebodied"
 				}
 				m = append(m, item{1 + rng.Intn(n), kind})
 			}
@@ -490,7 +517,7 @@ func runConverge(dir string, c *chain, id int) {
 				hostile++
 				bad := givb{}
 				for _, q := range rng.Perm(N) {
-					bad.Blocks = append(bad.Blocks, c.concrete(item{q + 1, []string{"pub", "forged", "alien"}[rng.Intn(3)]}, nil))
+					bad.Blocks = append(bad.Blocks, c.concrete(item{q + 1, []string{"pub", "forged", "alien", "rebodied"}[rng.Intn(4)]}, nil))
 				}
 				_ = p.send("GIVB", encoder.Serialize(bad))
 			}
@@ -686,6 +713,7 @@ func main() {
 	}
 	w := bufio.NewWriterSize(f, 1<<20)
 	enc = json.NewEncoder(w)
+	flush = func() { w.Flush() }
 	dir, err := ioutil.TempDir("", "verifsync")
 	if err != nil {
 		log.Fatal(err)
